@@ -6,3 +6,6 @@ import Gittuf.Props.C14
 #print axioms Gittuf.C14_F11_witness
 #print axioms Gittuf.C14_parse_render_ann_partial
 #print axioms Gittuf.C14_parse_canonical_ref_partial
+#print axioms Gittuf.C14_parse_render_any
+#print axioms Gittuf.C14_render_injective
+#print axioms Gittuf.C14_ref_text_ne_prop_text
